@@ -112,6 +112,7 @@ func simCampaign(prop string, enable func(*Monitors), clients bool) vk.Campaign 
 			r.Obs("messages_delivered", int64(c.Delivered))
 			r.Obs("local_timeouts", int64(c.Timeouts))
 			r.Obs("byz_actions", int64(c.ByzActs))
+			r.Obs("fetch_replies_with_a_wrong_block", int64(c.WrongFetchReplies))
 			r.Obs("partition_changes", int64(c.PartChanges))
 			r.Obs("crashes", int64(c.Crashes))
 			r.Obs("duplicate_deliveries", int64(c.Dups))
@@ -202,6 +203,16 @@ func simCampaign(prop string, enable func(*Monitors), clients bool) vk.Campaign 
 					if p.Mine(520 + 6*k + variant) {
 						if c := RunCatchupLostFetch(variant, rs, "eddsa", false, vbase.NewRng(p.Seed, "catchup-lost-fetch", rs, variant), r, enable); c != nil {
 							finish(c, c.Cfg.String()+" "+c.Cfg.Label, -2100-6*k-variant, "directed")
+						}
+					}
+				}
+			}
+			// ... and with a Byzantine replica that answers every block request first, with a twin of the requested block
+			for k, rs := range Rulesets[:2] {
+				for variant := 6; variant < 12; variant++ {
+					if p.Mine(540 + 6*k + variant) {
+						if c := RunCatchupLostFetch(variant, rs, "eddsa", false, vbase.NewRng(p.Seed, "catchup-lost-fetch", rs, variant), r, enable); c != nil {
+							finish(c, c.Cfg.String()+" "+c.Cfg.Label, -2600-6*k-variant, "directed")
 						}
 					}
 				}
